@@ -34,19 +34,26 @@ def run(cmd, cwd=None, env=None, timeout=900):
 
 def main():
     prop, outdir, n, bid = sys.argv[1:5]
+    inplace = len(sys.argv) > 5 and sys.argv[5] == "--inplace"  # use the worktree the change was written in (its equivalence check may record absolute paths)
     patch = os.path.join(outdir, "change_%s.diff" % n)
     equiv = os.path.join(outdir, "equiv_%s.py" % n)
-    wt = tempfile.mkdtemp(prefix="benwt-")
-    os.rmdir(wt)
-    rc, out = run(["git", "-C", "/repo", "worktree", "add", "-q", "--detach", wt, "HEAD"])
-    assert rc == 0, out
+    if inplace:
+        wt = os.path.dirname(os.path.abspath(outdir))
+        rc, out = run(["git", "-C", wt, "status", "--porcelain", "--untracked-files=no"])
+        assert rc == 0 and not out.strip(), "worktree %s is not clean: %s" % (wt, out)
+    else:
+        wt = tempfile.mkdtemp(prefix="benwt-")
+        os.rmdir(wt)
+        rc, out = run(["git", "-C", "/repo", "worktree", "add", "-q", "--detach", wt, "HEAD"])
+        assert rc == 0, out
     meta = dict(property=prop, benign_id=bid, confirmed=False)
     try:
         env = dict(os.environ, PYTHONPATH=wt, PYTHONDONTWRITEBYTECODE="1")
-        os.makedirs(os.path.join(wt, "_out"))
-        for f in os.listdir(outdir):
-            if f.startswith(("equiv_%s" % n, "expected_%s" % n)) or f.endswith(".json") or (f.endswith(".py") and not f.startswith("equiv_")):
-                shutil.copy(os.path.join(outdir, f), os.path.join(wt, "_out", f))
+        if not inplace:
+            os.makedirs(os.path.join(wt, "_out"))
+            for f in os.listdir(outdir):
+                if f.startswith(("equiv_%s" % n, "expected_%s" % n)) or f.endswith(".json") or (f.endswith(".py") and not f.startswith("equiv_")):
+                    shutil.copy(os.path.join(outdir, f), os.path.join(wt, "_out", f))
         rc0, o0 = run([PY, "_out/equiv_%s.py" % n], cwd=wt, env=env, timeout=600)
         meta["equiv_on_clean_tree"] = rc0
         rc, out = run(["git", "-C", wt, "apply", os.path.abspath(patch)])
@@ -63,7 +70,8 @@ def main():
         meta["equiv_on_changed_tree"] = rc1
         if rc1 != 0:
             meta["equiv_output_tail"] = o1.strip().split("\n")[-3:]
-        shutil.rmtree(os.path.join(wt, "_out"))
+        if not inplace:
+            shutil.rmtree(os.path.join(wt, "_out"))
         venv = dict(os.environ, VERIF_REPO=wt, VERIF_EVIDENCE_DIR=os.path.join(wt, "_ev"), VERIF_OUT_DIR=os.path.join(wt, "_vout"))
         rca, oa = run([os.path.join(HERE, "vcheck"), "all"], cwd=HERE, env=venv, timeout=900)
         alarms = [l.strip()[:300] for l in oa.split("\n") if l.startswith("  C") or l.startswith("ANALYSIS-ERROR")]
@@ -84,8 +92,13 @@ def main():
             json.dump(meta, open(os.path.join(d, "meta.json"), "w"), indent=1)
         print(json.dumps(meta, indent=1))
     finally:
-        run(["git", "-C", "/repo", "worktree", "remove", "--force", wt])
-        shutil.rmtree(wt, ignore_errors=True)
+        if inplace:
+            run(["git", "-C", wt, "checkout", "-q", "--", "."])
+            shutil.rmtree(os.path.join(wt, "_ev"), ignore_errors=True)
+            shutil.rmtree(os.path.join(wt, "_vout"), ignore_errors=True)
+        else:
+            run(["git", "-C", "/repo", "worktree", "remove", "--force", wt])
+            shutil.rmtree(wt, ignore_errors=True)
 
 
 if __name__ == "__main__":
